@@ -20,6 +20,7 @@ package types
 import (
 	"encoding/base64"
 	"encoding/json"
+	"math"
 	"reflect"
 	"time"
 )
@@ -193,8 +194,15 @@ func (c *ColumnImage) MarshalJSON() ([]byte, error) {
 		return json.Marshal(*c)
 	}
 	value := c.Value
-	if t, ok := c.Value.(time.Time); ok {
-		value = t.Format(time.RFC3339Nano)
+	switch v := c.Value.(type) {
+	case time.Time:
+		value = v.Format(time.RFC3339Nano)
+	case string:
+		// character data is written like the []byte a driver may hand out for it (base64),
+		// which is what UnmarshalJSON reads back: a text that happens to be valid base64 stays itself
+		if isCharacterType(c.ColumnType) {
+			value = []byte(v)
+		}
 	}
 	return json.Marshal(&columnImageAlias{
 		KeyType:    c.KeyType,
@@ -204,67 +212,102 @@ func (c *ColumnImage) MarshalJSON() ([]byte, error) {
 	})
 }
 
+func isCharacterType(t JDBCType) bool {
+	return t == JDBCTypeChar || t == JDBCTypeVarchar || t == JDBCTypeLongVarchar
+}
+
+// narrowInteger gives an integer the Go type of its column when it fits
+// (unsigned columns hold values the signed type cannot).
+func narrowInteger(t JDBCType, n int64) interface{} {
+	switch t {
+	case JDBCTypeTinyInt:
+		if n >= math.MinInt8 && n <= math.MaxInt8 {
+			return int8(n)
+		}
+	case JDBCTypeSmallInt:
+		if n >= math.MinInt16 && n <= math.MaxInt16 {
+			return int16(n)
+		}
+	case JDBCTypeInteger:
+		if n >= math.MinInt32 && n <= math.MaxInt32 {
+			return int32(n)
+		}
+	}
+	return n
+}
+
 func (c *ColumnImage) UnmarshalJSON(data []byte) error {
-	var err error
-	tmpImage := make(map[string]interface{})
+	var tmpImage struct {
+		KeyType    string           `json:"keyType"`
+		ColumnName string           `json:"name"`
+		ColumnType int16            `json:"type"`
+		Value      *json.RawMessage `json:"value"`
+	}
 	if err := json.Unmarshal(data, &tmpImage); err != nil {
 		return err
 	}
 	var (
-		keyType     string
-		columnType  int16
-		columnName  string
-		value       interface{}
+		err         error
+		columnType  = JDBCType(tmpImage.ColumnType)
 		actualValue interface{}
 	)
-	keyType = tmpImage["keyType"].(string)
-	columnType = int16(int64(tmpImage["type"].(float64)))
-	columnName = tmpImage["name"].(string)
-	value = tmpImage["value"]
 
-	if value != nil {
-		switch JDBCType(columnType) {
-		case JDBCTypeReal: // 4 Bytes
-			actualValue = value.(float32)
-		case JDBCTypeDecimal, JDBCTypeDouble: // 8 Bytes
-			actualValue = value.(float64)
-		case JDBCTypeTinyInt: // 1 Bytes
-			actualValue = int8(value.(float64))
-		case JDBCTypeSmallInt: // 2 Bytes
-			actualValue = int16(value.(float64))
-		case JDBCTypeInteger: // 4 Bytes
-			actualValue = int32(value.(float64))
-		case JDBCTypeBigInt: // 8Bytes
-			actualValue = int64(value.(float64))
-		case JDBCTypeTimestamp: // 4 Bytes
-			actualValue, err = time.Parse(time.RFC3339Nano, value.(string))
-			if err != nil {
+	if tmpImage.Value != nil {
+		// every value is decoded into the Go type it had, not through float64 / interface{}
+		raw := []byte(*tmpImage.Value)
+		switch columnType {
+		case JDBCTypeReal, JDBCTypeDecimal, JDBCTypeDouble:
+			var f float64
+			if err = json.Unmarshal(raw, &f); err != nil {
 				return err
 			}
-		case JDBCTypeDate: // 3Bytes
-			actualValue, err = time.Parse(time.RFC3339Nano, value.(string))
-			if err != nil {
+			actualValue = f
+		case JDBCTypeTinyInt, JDBCTypeSmallInt, JDBCTypeInteger, JDBCTypeBigInt:
+			var n int64
+			if err = json.Unmarshal(raw, &n); err != nil {
 				return err
 			}
-		case JDBCTypeTime: // 3Bytes
-			actualValue, err = time.Parse(time.RFC3339Nano, value.(string))
-			if err != nil {
+			actualValue = narrowInteger(columnType, n)
+		case JDBCTypeTimestamp, JDBCTypeDate, JDBCTypeTime:
+			var text string
+			if err = json.Unmarshal(raw, &text); err != nil {
+				return err
+			}
+			if actualValue, err = time.Parse(time.RFC3339Nano, text); err != nil {
 				return err
 			}
 		case JDBCTypeChar, JDBCTypeVarchar, JDBCTypeLongVarchar:
+			var text string
+			if err = json.Unmarshal(raw, &text); err != nil {
+				return err
+			}
 			var val []byte
-			if val, err = base64.StdEncoding.DecodeString(value.(string)); err != nil {
-				val = []byte(value.(string))
+			if val, err = base64.StdEncoding.DecodeString(text); err != nil {
+				val = []byte(text)
 			}
 			actualValue = string(val)
 		case JDBCTypeBinary, JDBCTypeVarBinary, JDBCTypeLongVarBinary, JDBCTypeBit:
-			actualValue = value
+			var (
+				val []byte
+				n   int64
+			)
+			if err = json.Unmarshal(raw, &val); err == nil {
+				actualValue = val
+			} else if err = json.Unmarshal(raw, &n); err == nil {
+				actualValue = n
+			} else if err = json.Unmarshal(raw, &actualValue); err != nil {
+				return err
+			}
+		default:
+			if err = json.Unmarshal(raw, &actualValue); err != nil {
+				return err
+			}
 		}
 	}
 	*c = ColumnImage{
-		KeyType:    ParseIndexType(keyType),
-		ColumnName: columnName,
-		ColumnType: JDBCType(columnType),
+		KeyType:    ParseIndexType(tmpImage.KeyType),
+		ColumnName: tmpImage.ColumnName,
+		ColumnType: columnType,
 		Value:      actualValue,
 	}
 	return nil
